@@ -682,6 +682,8 @@ func (fe *FuncEnc) evalClause(f *Frame, c *Clause, cur, old *State, names map[st
 	if f != nil && f.fn != nil {
 		if con := fe.eng.contracts[fe.eng.fnames[f.fn]]; con != nil {
 			ctx.lets = con.Lets
+		} else if f.borrow != nil && fe.con != nil {
+			ctx.lets = fe.con.Lets // borrowed loop clauses speak the language of the lending contract
 		}
 	}
 	defer func() {
@@ -895,6 +897,22 @@ func (c *specCtx) ident(name string) TV {
 	// spec constant
 	if sig, ok := c.fe.eng.specs.sigs[name]; ok && len(sig.Params) == 0 && sig.Result != "" && len(sig.Heap) == 0 {
 		return TV{Term{name, sig.Result}, nil}
+	}
+	// borrowed clauses: names of the lending function (its parameters and locals at the call site)
+	if c.f != nil && c.f.borrow != nil && c.f.parent != nil {
+		for pf := c.f.parent; pf != nil; pf = pf.parent {
+			c2 := *c
+			c2.f = pf
+			c2.names = nil
+			if pf.fn != nil && pf.curBlock != nil {
+				if tv, ok := c2.localByName(name); ok {
+					return tv
+				}
+			}
+			if tv, ok := c2.lookupName(name); ok {
+				return tv
+			}
+		}
 	}
 	// rename recovery: the name may be a local or parameter that has been renamed in the code since the contract was
 	// written.  Candidates are the named values in scope that the contract does not mention anywhere; a single candidate,
